@@ -557,7 +557,7 @@ def _noise(rnd, unicode_noise=False):
     return rnd.choice(['', '', '   ', '# comment line', '    # indented comment', '\t'])
 
 
-def build_tree(rnd, flat, depth, fault_depth, unicode_noise=False):
+def build_tree(rnd, flat, depth, fault_depth, unicode_noise=False, blobs=False):
     """cut `flat` into a tree of files of include depth `depth` with the 'fault' line at depth
     `fault_depth` (0 = main file).  Returns a Tree; main file is 'main.asm'."""
     tree = Tree()
@@ -609,6 +609,13 @@ def build_tree(rnd, flat, depth, fault_depth, unicode_noise=False):
             child = tree.new_name(rnd, d)
             tree.files[child] = ['# nothing here', '']
             out.insert(rnd.randrange(0, len(out) + 1), ('include ' + child[len(d):], None))
+        # an include_bytes of an empty file somewhere in this file: lines after it still
+        # belong to THIS file
+        if blobs and rnd.random() < 0.25:
+            tree.n += 1
+            blob = d + rnd.choice(['', 'sub0/']) + 'blob_%d.bin' % tree.n
+            tree.files[blob] = []                        # an EMPTY file (.bin files are written verbatim): no position moves
+            out.insert(rnd.randrange(0, len(out) + 1), (rnd.choice(['include_bytes ', 'include_bytes  ', 'INCLUDE_BYTES ']) + blob[len(d):], None))
         lines = []
         for text, tag in out:
             while rnd.random() < 0.15:
@@ -630,7 +637,7 @@ def materialise(tree, root):
         p = os.path.join(root, rel)
         os.makedirs(os.path.dirname(p), exist_ok=True)
         with open(p, 'w', encoding='utf-8', newline='') as f:
-            f.write('\n'.join(lines) + '\n')
+            f.write(''.join(lines) if rel.endswith('.bin') else '\n'.join(lines) + '\n')
 
 
 def tree_dirs(tree, root):
